@@ -29,10 +29,11 @@ const (
 	MRagged
 	MBareQuote
 	MUnterminated
+	MEmpty // a file of zero bytes: not even a header
 	nMal
 )
 
-var malName = []string{"well-formed", "ragged-record", "bare-quote", "unterminated-quote"}
+var malName = []string{"well-formed", "ragged-record", "bare-quote", "unterminated-quote", "zero-byte-file"}
 
 // Existing output kinds.
 const (
@@ -66,11 +67,16 @@ type Case struct {
 	// OutName: length of the output file's base name (0 = the short default);
 	// file systems allow 255 bytes, and names derived from it must still fit
 	OutName int
+	// Prior: an earlier run of the same command line (same mode, same output
+	// name) on a CSV of Prior+1 records (the same values on other records, and other values), whose last record
+	// is ragged, failed; the user removed what it left under the output name
+	// and runs the command again.  0 = no earlier run.
+	Prior int
 }
 
 func (c *Case) Summary() string {
 	var b strings.Builder
-	fmt.Fprintf(&b, "mode=%s global-flags=%03b bystander=%d out-name-bytes=%d csv=%s existing-output=%s header=%+q records[%d]", map[bool]string{true: "--big", false: "normal"}[c.Big], c.Global, c.Bystander, c.OutName, malName[c.Malformed], existName[c.Existing], c.Header, len(c.Records))
+	fmt.Fprintf(&b, "mode=%s global-flags=%03b bystander=%d out-name-bytes=%d csv=%s existing-output=%s earlier-failed-run-records=%d header=%+q records[%d]", map[bool]string{true: "--big", false: "normal"}[c.Big], c.Global, c.Bystander, c.OutName, malName[c.Malformed], existName[c.Existing], c.Prior, c.Header, len(c.Records))
 	for i, r := range c.Records {
 		if i >= 5 {
 			b.WriteString(" …")
@@ -105,6 +111,9 @@ func needsQuote(f string, single bool) bool {
 
 func (c *Case) csv() []byte {
 	var b bytes.Buffer
+	if c.Malformed == MEmpty {
+		return nil
+	}
 	nl := "\n"
 	if c.CRLF {
 		nl = "\r\n"
@@ -178,6 +187,39 @@ func oracle(c *Case) error {
 	if c.OutName > 0 {
 		out = filepath.Join(dir, strings.Repeat("o", c.OutName-6)+".updog")
 	}
+	if c.Prior > 0 {
+		pc := &Case{Header: c.Header, CRLF: c.CRLF, FinalNL: true, Malformed: MRagged, MalAt: c.Prior}
+		for i := 0; i <= c.Prior; i++ {
+			rec := make([]string, len(c.Header))
+			for j := range rec {
+				rec[j] = fmt.Sprintf("stale-%d-%d", i%7, j)
+				if n := len(c.Records); n > 0 && i%2 == 0 {
+					// the same values as the file of the second run, on other records
+					rec[j] = c.Records[(i/2+1)%n][j]
+				}
+			}
+			pc.Records = append(pc.Records, rec)
+		}
+		pin := filepath.Join(dir, "earlier.csv")
+		if err := os.WriteFile(pin, pc.csv(), 0o644); err != nil {
+			return fmt.Errorf("INFRA: %v", err)
+		}
+		pargs := []string{"create", "-o", out}
+		if c.Big {
+			pargs = append(pargs, "-b")
+		}
+		pr := fix.RunCLI(dir, 25*time.Second, []string{"TMPDIR=" + dir}, append(pargs, pin)...)
+		if pr.Slow {
+			panic("INFRA: updog create slow but making progress")
+		}
+		if pr.Hung {
+			return fmt.Errorf("`updog %s` on a CSV whose last record is ragged never exits", strings.Join(pargs, " "))
+		}
+		if pr.Exit == 0 {
+			return fmt.Errorf("`updog %s` exited 0 although the last of %d records is ragged", strings.Join(pargs, " "), c.Prior+1)
+		}
+		os.Remove(out)
+	}
 	switch c.Existing {
 	case EZero:
 		os.WriteFile(out, nil, 0o644)
@@ -232,6 +274,11 @@ func oracle(c *Case) error {
 		return fmt.Errorf("%s panicked: %s", label, clip(r.Out))
 	}
 	mustFail := c.Malformed != MNone || c.Existing != ENone
+	if c.Malformed == MEmpty && c.Existing == ENone {
+		// whether a file without a header is an error is not stated; only the
+		// treatment of an existing output is
+		return nil
+	}
 	if mustFail {
 		if r.Exit == 0 {
 			return fmt.Errorf("%s exited 0 although the CSV is %s and the output was %s", label, malName[c.Malformed], existName[c.Existing])
@@ -407,6 +454,12 @@ func drawCase(t *rapid.T, maxRecords int) *Case {
 		c.Malformed = rapid.IntRange(1, nMal-1).Draw(t, "malformed")
 		c.MalAt = rapid.IntRange(0, 1<<20).Draw(t, "malat")
 	}
+	if len(c.Records) == 0 && c.Global == 0 && rapid.Bool().Draw(t, "verbose-on-nothing") {
+		c.Global = 1 // -v on a CSV without records (whatever is reported per record has none)
+	}
+	if rapid.IntRange(0, 9).Draw(t, "prior?") == 0 {
+		c.Prior = rapid.SampledFrom([]int{3, 999, 1000, 1001, 1500, 2500}).Draw(t, "prior")
+	}
 	if rapid.IntRange(0, 3).Draw(t, "existing?") == 0 {
 		c.Existing = rapid.IntRange(1, nExisting-1).Draw(t, "existing")
 		c.Random = rapid.SliceOfN(rapid.Byte(), 1, 300).Draw(t, "random")
@@ -554,8 +607,24 @@ func bigCSV(t *testing.T, n int) {
 	}
 }
 
+// corners: fixed cases the drawn ones reach only now and then.
+func corners(t *testing.T) {
+	recs := [][]string{{"x", "1"}, {"y", "2"}, {"x", "2"}}
+	for _, big := range []bool{false, true} {
+		for _, prior := range []int{3, 1500} {
+			run(t, &Case{Header: []string{"Aa", "Bb"}, Records: recs, Big: big, FinalNL: true, Prior: prior})
+		}
+		run(t, &Case{Header: []string{"Aa", "Bb"}, Big: big, FinalNL: true, Global: 1})
+		run(t, &Case{Header: []string{"Aa", "Bb"}, Big: big, Global: 7})
+		for _, ex := range []int{EZero, ERandom, EIndex} {
+			run(t, &Case{Header: []string{"Aa"}, Big: big, Malformed: MEmpty, Existing: ex, Random: []byte("not an index")})
+		}
+	}
+}
+
 func TestQuick(t *testing.T) {
 	fix.Pinned(t, prop, replay)
+	corners(t)
 	bigCSV(t, 200000)
 	manyValuesCSV(t, 70001)
 	fix.Check(t, "create", 240, func(rt *rapid.T) { run(rt, drawCase(rt, 60)) })
@@ -564,6 +633,7 @@ func TestQuick(t *testing.T) {
 
 func TestThorough(t *testing.T) {
 	if shard, _ := evid.Shard(); shard == 0 {
+		corners(t)
 		fix.Pinned(t, prop, replay)
 		bigCSV(t, 200000)
 		bigCSV(t, 300001)
